@@ -469,7 +469,8 @@ def apply_entry(tn, geom, a, gauges=None):
             del kw["renorm"]
         if a.get("smudge") is not None:
             kw["smudge"] = a["smudge"]
-        kw["cutoff"] = 0.0 if a.get("cutoff") is None else a["cutoff"]
+        if a.get("cutoff") is not None:
+            kw["cutoff"] = a["cutoff"]
         if a.get("simple_contract"):
             kw["contract"] = a["simple_contract"]
         tn.gate_simple_(Gin, where, gauges, **kw)     # always in place (the plain spelling warns)
